@@ -63,6 +63,7 @@ type Contract struct {
 	Implementations bool // interface method contract that also stands for every implementing method without a contract of its own
 	Iterates string   // schema contract: calls this function-typed parameter any number of times (stops at its first error)
 	NonBlocking []string // lock classes (Struct.field) whose acquisition in this function is assumed not to block
+	AssumePre   map[string]bool // callee names whose preconditions are assumed (not checked) at the call sites in this function
 	GhostMaps []string // fresh uninterpreted Int->Int maps available in the ensures clauses (per call site)
 	Ghost    []string // misc flags
 	used     bool
@@ -350,6 +351,19 @@ func (cs *ContractSet) ParseContractText(file, pkgPath, pkgName, text string) {
 				if len(f) > 0 {
 					cur.NonBlocking = append(cur.NonBlocking, pkgName+"."+f[0])
 					cs.Trust = append(cs.Trust, fmt.Sprintf("%s: acquisition of %s assumed non-blocking: %s", cur.Key, f[0], strings.Join(f[1:], " ")))
+				}
+			}
+		case "assumepre":
+			// assumepre CALLEE justification: the preconditions of CALLEE are assumed, not checked, at its
+			// call sites in this function (a listed assumption)
+			if cur != nil {
+				f := strings.Fields(rest)
+				if len(f) > 0 {
+					if cur.AssumePre == nil {
+						cur.AssumePre = map[string]bool{}
+					}
+					cur.AssumePre[f[0]] = true
+					cs.Trust = append(cs.Trust, fmt.Sprintf("%s: preconditions of %s assumed at its call sites: %s", cur.Key, f[0], strings.Join(f[1:], " ")))
 				}
 			}
 		case "iterates":
